@@ -295,6 +295,8 @@ pub fn begin(script: &EnvScript, envelope: Envelope, names: &[String], hooks: Op
         s.last_alloc = alloc::snapshot();
     });
     seam::set_map_salt(script.map_salt);
+    // node ids are a function of the run, not of what ran earlier in the process
+    seam::set_counter_override(Some(1));
     if script.map_salt != 0 {
         with(|s| s.fault("order_permute"));
     }
@@ -305,6 +307,7 @@ pub fn begin(script: &EnvScript, envelope: Envelope, names: &[String], hooks: Op
 pub fn end() -> SimCore {
     seam::uninstall();
     seam::set_map_salt(0);
+    seam::set_counter_override(None);
     SIM.with(|s| std::mem::replace(&mut *s.borrow_mut(), SimCore::idle()))
 }
 
